@@ -375,11 +375,19 @@ async fn gen_proc(sim: &mut Sim, rng: &mut Prng, stats: &mut Stats, name: &str) 
                         .max()
                         .unwrap_or(0)
                         + 1;
-                    let mut spec = NodeSpec::simple(ChitchatId::new(
-                        old.node_id.clone(),
-                        next_gen,
-                        old.gossip_advertise_addr,
-                    ));
+                    // either the next generation on the same address, or the SAME generation
+                    // re-advertised on a new address (the id is the triple, so it is a new id)
+                    let readvertise = rng.chance(1, 3);
+                    let mut spec = NodeSpec::simple(if readvertise {
+                        let mut addr = old.gossip_advertise_addr;
+                        addr.set_port(2100 + sim.nodes.len() as u16);
+                        ChitchatId::new(old.node_id.clone(), old.generation_id, addr)
+                    } else {
+                        ChitchatId::new(old.node_id.clone(), next_gen, old.gossip_advertise_addr)
+                    });
+                    if readvertise {
+                        stats.bump("op_readvertise_same_generation");
+                    }
                     spec.kv_grace_ns = kv_grace;
                     spec.dead_grace_ns = dead_grace;
                     sim.join(spec);
@@ -880,8 +888,21 @@ fn rand_wid(rng: &mut Prng, i: usize) -> WId {
 fn rand_ops(rng: &mut Prng, hostile: bool) -> Vec<WOp> {
     let mut ops = Vec::new();
     let nnodes = rng.below(5);
+    let mut prev_ids: Vec<WId> = Vec::new();
     for i in 0..nnodes {
-        let id = rand_wid(rng, i as usize);
+        let mut id = rand_wid(rng, i as usize);
+        if !prev_ids.is_empty() && rng.chance(1, 4) {
+            // near-duplicate of an earlier member: the ids are triples, so a member that differs
+            // from another one in a single component (address, port, generation or name) is distinct
+            let base = prev_ids[rng.below(prev_ids.len() as u64) as usize].clone();
+            id = match rng.below(4) {
+                0 => WId { port: base.port.wrapping_add(1), ..base },
+                1 => WId { ip: base.ip ^ 1, ..base },
+                2 => WId { generation: base.generation.wrapping_add(1), ..base },
+                _ => WId { ipv: if base.ipv == 4 { 6 } else { 4 }, ip: base.ip & 0xffff_ffff, ..base },
+            };
+        }
+        prev_ids.push(id.clone());
         ops.push(WOp::Node { id, gc: rng.below(9), from: rng.below(9) });
         let nk = rng.below(5);
         let mut ver = rng.below(5);
@@ -1491,6 +1512,29 @@ async fn gen_conv(sim: &mut Sim, rng: &mut Prng, stats: &mut Stats, name: &str) 
             sim.set(who, &format!("big{i}"), &v);
             stats.bump("op_set_big");
         }
+    }
+    if rng.chance(1, 6) && sim.nodes.len() >= 2 {
+        // replica exactly at the owner's GC watermark, with more than a datagram of older state:
+        // the owner writes several large values, a replica syncs completely, the owner deletes a
+        // key (the tombstone is the top version), the replica syncs again, the grace period passes,
+        // ONLY the owner collects the tombstone, then the owner writes again.
+        stats.bump("conv_cases_replica_at_owner_watermark");
+        let o = rng.below(sim.nodes.len() as u64) as usize;
+        let r = (o + 1 + rng.below(sim.nodes.len() as u64 - 1) as usize) % sim.nodes.len();
+        let nbig = rng.range(3, 5);
+        for i in 0..nbig {
+            let len = rng.range(24_000, 33_000) as usize;
+            let v = high_entropy_string(rng, len);
+            sim.set(o, &format!("wm{i}"), &v);
+        }
+        for _ in 0..(nbig + 1) {
+            full_handshake(sim, r, o);
+        }
+        sim.delete(o, "wm0");
+        full_handshake(sim, r, o);
+        sim.tick(kv_grace + 1).await;
+        sim.gc(o);
+        sim.set(o, "after", "x");
     }
     let nops = rng.range(8, 45);
     for _ in 0..nops {
